@@ -76,6 +76,57 @@ class _Spec(ast.NodeTransformer):
         return self.visit(node.body if c == self.pol else node.orelse)
 
 
+def _inline_global_aliases(fn: ast.AST) -> None:
+    """`setter = object.__setattr__` / `add = set.add` / `size_of = len` (a local bound exactly once, by a plain
+    assignment, to a Name / attribute chain whose root is NOT a local or parameter of the function): every read of the
+    local is replaced by the chain, in place.  The meaning of builtins / C-API calls is looked up by dotted name; a local
+    alias of one must not make the call unknown.  (rob-H2)"""
+    a = fn.args
+    params = {x.arg for x in a.posonlyargs + a.args + a.kwonlyargs} | {x.arg for x in (a.vararg, a.kwarg) if x is not None}
+    stores: Dict[str, int] = {}
+    vals: Dict[str, ast.AST] = {}
+    for n in ast.walk(fn):
+        if isinstance(n, ast.Name) and isinstance(n.ctx, (ast.Store, ast.Del)):
+            stores[n.id] = stores.get(n.id, 0) + 1
+        elif isinstance(n, (ast.FunctionDef, ast.AsyncFunctionDef, ast.ClassDef)) and n is not fn:
+            stores[n.name] = stores.get(n.name, 0) + 1
+            for x in n.args.posonlyargs + n.args.args + n.args.kwonlyargs if not isinstance(n, ast.ClassDef) else []:
+                stores[x.arg] = stores.get(x.arg, 0) + 2
+        elif isinstance(n, (ast.Global, ast.Nonlocal)):
+            for nm in n.names:
+                stores[nm] = stores.get(nm, 0) + 2
+        elif isinstance(n, ast.ExceptHandler) and n.name:
+            stores[n.name] = stores.get(n.name, 0) + 2
+        elif isinstance(n, (ast.Import, ast.ImportFrom)):
+            for al in n.names:
+                nm = (al.asname or al.name).split(".")[0]
+                stores[nm] = stores.get(nm, 0) + 2
+    local_names = set(stores) | params
+    for st in walk_local(fn):
+        if isinstance(st, ast.Assign) and len(st.targets) == 1 and isinstance(st.targets[0], ast.Name):
+            v = st.value
+            root = v
+            while isinstance(root, ast.Attribute):
+                root = root.value
+            if isinstance(v, (ast.Name, ast.Attribute)) and isinstance(root, ast.Name) and root.id not in local_names \
+                    and stores.get(st.targets[0].id) == 1 and st.targets[0].id not in params:
+                vals[st.targets[0].id] = v
+    if not vals:
+        return
+
+    class T(ast.NodeTransformer):
+        def visit_Name(self, n):
+            if isinstance(n.ctx, ast.Load) and n.id in vals:
+                new = copy.deepcopy(vals[n.id])
+                for x in ast.walk(new):
+                    ast.copy_location(x, n)
+                return new
+            return n
+
+    fn.body = [T().visit(st) for st in fn.body]
+    ast.fix_missing_locations(fn)
+
+
 def specialise(fn: ast.AST, pol: bool) -> ast.AST:
     new = _Spec(pol).visit(copy.deepcopy(fn))
     left = [n for n in ast.walk(new) if isinstance(n, ast.Attribute) and dotted(n) == "cython.compiled"]
@@ -162,6 +213,7 @@ class Variant:
     def __init__(self, ctx, fn: ast.AST, pol: bool, label: str):
         self.ctx, self.pol, self.label = ctx, pol, label
         self.fn = specialise(fn, pol)
+        _inline_global_aliases(self.fn)
         ctx.__dict__.setdefault("_strv_keep", []).append(self.fn)  # ctx.cfg caches by id(): keep the node alive
         self.pm = parent_map(self.fn)
         a = self.fn.args
@@ -979,6 +1031,69 @@ def shape_of(e):
     if isinstance(e, ast.Name):
         return ("name", e.id)
     return ("unknown", unparse(e)[:60])
+
+
+def loop_as_comprehension(pm, scope, name, value, st):
+    """`name = []` (statement `st` of function `scope`) followed, in the same block, by ONE loop that fills it
+    (`for T in IT: [if C:] name.append(E)`, guards nested, combined or written as `if not C: continue`) and never
+    touched otherwise except by reads after the loop  ->  the equivalent `[E for T in IT if C]`; None for any other
+    shape.  (comprehension <-> loop is an everyday refactoring; rob-H2)"""
+    if not (_is_empty_literal(value) and isinstance(value, ast.List)) and not (
+            isinstance(value, ast.Call) and call_name(value) == "list" and not value.args and not value.keywords):
+        return None
+    blk = _block_of(pm, st)
+    if blk is None:
+        return None
+    idx = [i for i, x in enumerate(blk) if x is st][0]
+    loop = None
+    for nxt in blk[idx + 1:]:
+        if any(isinstance(x, ast.Name) and x.id == name for x in ast.walk(nxt)):
+            loop = nxt
+            break
+    if not isinstance(loop, ast.For) or loop.orelse:
+        return None
+    found = []
+
+    def is_append(x):
+        return isinstance(x, ast.Expr) and isinstance(x.value, ast.Call) and isinstance(x.value.func, ast.Attribute) \
+            and x.value.func.attr == "append" and isinstance(x.value.func.value, ast.Name) and x.value.func.value.id == name \
+            and len(x.value.args) == 1 and not x.value.keywords
+
+    def neg(t):
+        return ast.UnaryOp(op=ast.Not(), operand=t)
+
+    def walk(body, conds) -> bool:
+        conds = list(conds)
+        for x in body:
+            if is_append(x):
+                found.append((list(conds), x.value.args[0]))
+            elif isinstance(x, ast.If) and len(x.body) == 1 and isinstance(x.body[0], ast.Continue) and not x.orelse:
+                conds.append(neg(x.test))
+            elif isinstance(x, ast.If):
+                if not walk(x.body, conds + [x.test]) or not walk(x.orelse, conds + [neg(x.test)]):
+                    return False
+            elif isinstance(x, ast.Pass):
+                continue
+            else:
+                return False
+        return True
+
+    if not walk(loop.body, []) or len(found) != 1:
+        return None
+    # nothing else may bind or fill the list
+    own_target = st.targets[0] if isinstance(st, ast.Assign) else getattr(st, "target", None)
+    in_loop = {id(y) for y in ast.walk(loop)}
+    for n in ast.walk(scope):
+        if isinstance(n, ast.Name) and n.id == name and isinstance(n.ctx, (ast.Store, ast.Del)) and n is not own_target:
+            return None
+        if isinstance(n, ast.Call) and isinstance(n.func, ast.Attribute) and isinstance(n.func.value, ast.Name) and n.func.value.id == name \
+                and n.func.attr in MUTATING_METHODS and id(n) not in in_loop:
+            return None
+    conds, elt = found[0]
+    comp = ast.ListComp(elt=copy.deepcopy(elt), generators=[ast.comprehension(
+        target=copy.deepcopy(loop.target), iter=copy.deepcopy(loop.iter), ifs=[copy.deepcopy(c) for c in conds], is_async=0)])
+    ast.copy_location(comp, loop)
+    return ast.fix_missing_locations(comp)
 
 
 def filter_atoms(tests, elem_name, token) -> frozenset:
